@@ -452,6 +452,14 @@ func TestVerifC32Copy(t *testing.T) {
 			}
 		}
 
+		// the crash state the resume run below starts from (taken before the log is reset)
+		var rs *vbe.Store
+		resumeAt := -1
+		if len(log) > 0 {
+			resumeAt = rapid.IntRange(0, len(log)-1).Draw(t, "resumeAt")
+			rs = dst.store.StateAt(resumeAt)
+		}
+
 		// ---- copy #2: nothing new
 		dst.store.StartRecording(vbe.NoFaults())
 		out2, cerr2 := vCopyC32(dst, src, context.Background(), nil)
@@ -467,9 +475,8 @@ func TestVerifC32Copy(t *testing.T) {
 		}
 
 		// ---- resume after an interruption: copy again from a drawn crash state of run #1
-		if len(log) > 0 {
-			k := rapid.IntRange(0, len(log)-1).Draw(t, "resumeAt")
-			rs := dst.store.StateAt(k)
+		if rs != nil {
+			k := resumeAt
 			rs.DropLocks()
 			re := dst.OnStore(rs)
 			out3, cerr3 := vCopyC32(re, src, context.Background(), nil)
